@@ -475,3 +475,19 @@ V("permaxis-benign-local-alias", ["C03", "C08"], ["PERM-AXIS"], "benign",
 V("permaxis-alias-wrong-map", ["C03", "C08"], ["PERM-AXIS"], "fire",
   (ET, "                    if cell_type == \"tetrahedron\":\n                        new_table = []\n                        for rot in range(3):", "                    if cell_type == \"tetrahedron\":\n                        pq = permute_quadrature_quadrilateral\n                        new_table = []\n                        for rot in range(3):"),
   (ET, "                                        permute_quadrature_triangle(\n                                            quadrature_rule.points, ref, rot\n                                        ),", "                                        pq(\n                                            quadrature_rule.points, ref, rot\n                                        ),"))
+
+# ---- GEN-BLOCKS: the block generator interpreted on sample IR ---------------------------------------------
+GB = ["GEN-BLOCKS"]
+V("gb-offset-dropped-blocked", ["C01", "C08"], GB, "fire", (IG, "                    A_indices.append(block_size * index.global_index + offset)", "                    A_indices.append(block_size * index.global_index)"))
+V("gb-offset-dropped-unit", ["C01", "C02"], GB, "fire", (IG, "                    A_indices.append(index.global_index + offset)", "                    A_indices.append(index.global_index)"))
+V("gb-weight-first-point", ["C01"], GB, "fire", (IG, "                weights = self.backend.symbols.weights_table(quadrature_rule)\n                weight = weights[iq.global_index]", "                weights = self.backend.symbols.weights_table(quadrature_rule)\n                weight = weights[0]"))
+V("gb-fw-cache-key-without-factor", ["C01", "C11"], GB, "fire", (IG, "                key = (quadrature_rule, factor_index, blockdata.all_factors_piecewise)", "                key = (quadrature_rule, blockdata.all_factors_piecewise)"))
+V("gb-assign-instead-of-add", ["C07", "C01"], GB, "fire", (IG, "                body.append(L.AssignAdd(A[multi_index], expression))", "                body.append(L.Assign(A[multi_index], expression))"))
+V("gb-entity-minus-slot0", ["C02"], GB, "fire", (SYM, "            if restriction == \"-\":\n                return self.entity_local_index[1]\n            else:\n                return self.entity_local_index[0]", "            if restriction == \"-\":\n                return self.entity_local_index[0]\n            else:\n                return self.entity_local_index[0]"))
+V("gb-entity-slot2", ["C08"], GB, "fire", (SYM, "        elif entity_type == \"vertex\":\n            return self.entity_local_index[0]", "        elif entity_type == \"vertex\":\n            return self.entity_local_index[2]"))
+V("gb-diagonal-second-index", ["C10", "C01"], GB, "fire", (IG, "                B_indices = [B_indices[0], B_indices[0]]", "                B_indices = [B_indices[0], B_indices[1]]"))
+V("gb-ones-factor-zero", ["C01"], GB, "fire", (IG, "            if td.ttype == \"ones\":\n                arg_factor = 1", "            if td.ttype == \"ones\":\n                arg_factor = 0"))
+V("gb-multiindex-shape-transposed", ["C01", "C08"], GB, "fire", (IG, "            multi_index = L.MultiIndex(list(indices), A_shape)", "            multi_index = L.MultiIndex(list(indices), A_shape[::-1])"))
+V("gb-loop-order-benign", ["C01"], GB, "benign", (IG, "        B_indices = B_indices[::-1]\n", ""))
+V("gb-table-access-swapped-indices", ["C01", "C08"], GB, "fire", (ACC, "            return self.symbols.element_tables[tabledata.name][qp][entity][iq_global_index][\n                ic_global_index\n            ], symbols", "            return self.symbols.element_tables[tabledata.name][qp][entity][ic_global_index][\n                iq_global_index\n            ], symbols"))
+V("gb-dof-range-plus-one", ["C08"], GB, "fire", ("ffcx/codegeneration/definitions.py", "        ranges = [tabledata.values.shape[-1]]", "        ranges = [tabledata.values.shape[-1] + 1]"))
